@@ -103,13 +103,19 @@ CheckDec(e) ==
 \* back WITH validation.  Whether k is valid is decided exactly by Validity.tla on the integers (scaling does not change
 \* validity); a valid geometry on the grid must come back, accepted by the validating reader, as exactly itself.
 VV == INSTANCE Validity
+\* the exact incidences that survive the division by 10^q: shared vertices (equal decimals are equal floats) and vertices on
+\* axis-parallel edges (the ordinate they share with the edge is the same float, the cross product is exactly zero)
+AxisParallel(s) == s[1][1] = s[2][1] \/ s[1][2] = s[2][2]
+GridSafe(g) ==
+  LET SG == VV!AllSegs(g) P == VV!CtrlPts(g) IN
+  /\ \A s \in SG : \A p \in P : VV!OnSegH(s, VV!H(p)) => (p = s[1] \/ p = s[2] \/ AxisParallel(s))
+  /\ \A s \in SG : \A t \in SG : (s # t /\ <<s[2],s[1]>> # t /\ VV!Overlap1D(s,t)) => AxisParallel(s)
 CheckGrid(e) ==
   IF ~VV!PartsValid(e.parts) THEN "skip:invalid"
-  \* a vertex of one ring in the interior of another ring's edge is an exact incidence on the integers only: k/10^q is not
-  \* a binary fraction, the decoded vertex lies a rounding error off the decoded edge, and whether the float geometry is
-  \* valid is no longer decided by the lattice. Shared vertices (equal decimals, equal floats) are the incidences that
-  \* survive, and the claim is made for those.
-  ELSE IF ~VV!GeneralPosition(VV!Merge(e.parts), VV!EmptyFlat) THEN "skip:vertex-on-edge"
+  \* a vertex of one ring in the interior of another ring's slanted edge is an exact incidence on the integers only: k/10^q
+  \* is not a binary fraction, the decoded vertex lies a rounding error off the decoded edge, and whether the float
+  \* geometry is valid is no longer decided by the lattice. The claim is made where every incidence survives.
+  ELSE IF ~GridSafe(VV!Merge(e.parts)) THEN "skip:vertex-on-slanted-edge"
   ELSE IF e.err # "" THEN "marshal-error-on-valid-geometry"
   ELSE IF e.decerr # "" THEN "validating-reader-rejects-valid-geometry-on-the-grid"
   ELSE IF ~e.same THEN "decoded-geometry-differs-on-the-grid"
